@@ -243,7 +243,7 @@ func C07(tier string) int {
 	res := NewResult("C07", tier, "exploration")
 	var cases []reqCase
 	forEachReqCase(func(c reqCase) { cases = append(cases, c) })
-	res.Rule = fmt.Sprintf("the full product {PostInbox,PostOutbox,GetInbox,GetOutbox,handler} x {social,federating,both; plus NewCustomActor over an application-written delegate with neither / social / federating / both protocols on, over reduced method, header and body alphabets} x authentication {ok,denied,error,error-with-true} x block {no,yes,error} x %d methods x %d header values x %d bodies, plus (authenticated, unblocked, GET / POST) every header value again with the header that is irrelevant for the method (Accept on a POST, Content-Type on a GET) carrying the ActivityStreams type or text/html = %d requests, each on a fresh world but in ONE process, after a warm-up with the odd-case spellings (a remembered answer would show); monitor over the seam call log; non-trivial = request classes (entry,kind,auth,block,method-ok,header-class,body-class) that reach a decision point", len(methods), len(headerVariants), len(bodyVariants()), len(cases))
+	res.Rule = fmt.Sprintf("the full product {PostInbox,PostOutbox,GetInbox,GetOutbox,handler} x {social,federating,both; plus NewCustomActor over an application-written delegate with neither / social / federating / both protocols on, over reduced method, header and body alphabets} x authentication {ok,denied,error,error-with-true} x block {no,yes,error} x %d methods x %d header values x %d bodies, plus (authenticated, unblocked, GET / POST) every header value again with the header that is irrelevant for the method (Accept on a POST, Content-Type on a GET) carrying the ActivityStreams type or text/html = %d requests, each on a fresh world but in ONE process, after a warm-up with the odd-case spellings (a remembered answer would show); plus every corpus POST with one body node removed, emptied or replaced by a value of another legal shape under {authentication denied, authentication error, sender blocked, block check erroring, all open}; monitor over the seam call log; non-trivial = request classes (entry,kind,auth,block,method-ok,header-class,body-class) that reach a decision point", len(methods), len(headerVariants), len(bodyVariants()), len(cases))
 	res.Assumptions = []string{"header values marked 'either' (case variants, lists) are exempt from the handled/not-handled assertion but not from the monitors",
 		"a panic is C11's business and is not judged here"}
 	warmUpOddCaseHeaders()
@@ -343,6 +343,83 @@ func C07(tier string) int {
 			res.Sample(s)
 		}
 	})
+	// ---- unusual but legal bodies: every corpus POST with one body node removed, emptied or replaced by a
+	// value of another legal shape, under a denying / erroring authentication and a refusing / erroring
+	// block check: whatever the body looks like, nothing happens before the checks have passed ----
+	mut := MutatedCorpus()
+	nMut := 0
+	parallel((len(mut)+199)/200, func(ci int) {
+		lo, hi := ci*200, (ci+1)*200
+		if hi > len(mut) {
+			hi = len(mut)
+		}
+		type viol struct {
+			key, what string
+			rep       M
+		}
+		var local []viol
+		n := 0
+		for _, base := range mut[lo:hi] {
+			if base.Entry != "PostInbox" && base.Entry != "PostOutbox" {
+				continue
+			}
+			for _, gate := range []struct {
+				name        string
+				auth, block ap.Outcome
+			}{{"auth-denied", ap.Denied, ap.OK}, {"auth-error", ap.Error, ap.OK}, {"blocked", ap.OK, ap.Denied}, {"block-error", ap.OK, ap.Error}, {"open", ap.OK, ap.OK}} {
+				if gate.block != ap.OK && base.Entry != "PostInbox" {
+					continue
+				}
+				gate := gate
+				sc := *base
+				inner := base.Tweak
+				sc.Tweak = func(a *ap.App) {
+					if inner != nil {
+						inner(a)
+					}
+					a.AuthGetInbox, a.AuthGetOutbox, a.AuthPostInbox, a.AuthPostOutbox = gate.auth, gate.auth, gate.auth, gate.auth
+					a.BlockedOutcome = gate.block
+					a.Callbacks = ap.CBWrapped
+				}
+				a := sc.World()
+				before := a.Canonical()
+				out := sc.On(a, nil)
+				n++
+				if out.Panic != nil {
+					continue
+				}
+				bad := func(kind, what string) {
+					local = append(local, viol{kind + "|" + sc.Entry + "|unusual-body", fmt.Sprintf("%s under %s: %s; calls=%v", sc.Name, gate.name, what, callNames(a.Log, 12)),
+						M{"check": "C07", "part": "unusual-body", "scenario": sc.Name, "gate": gate.name, "body": sc.Body}})
+				}
+				for _, p := range out.Req.PreAuth {
+					bad("call-"+strings.SplitN(p, ":", 2)[0], p)
+				}
+				if gate.name == "open" {
+					continue
+				}
+				sideEffects := 0
+				for _, cl := range a.Log {
+					if isSideEffect(cl.Op) {
+						sideEffects++
+					}
+				}
+				// a body the library refuses before it asks (no usable type / id) is answered 400 without a check; the
+				// state must be unchanged either way
+				if sideEffects > 0 || a.Canonical() != before || len(a.Deliveries) > 0 {
+					bad("side-effect-after-failed-"+map[bool]string{true: "authentication", false: "block-check"}[gate.auth != ap.OK], fmt.Sprintf("side-effect calls=%d", sideEffects))
+				}
+			}
+		}
+		mu.Lock()
+		defer mu.Unlock()
+		nMut += n
+		for _, v := range local {
+			res.Violate(v.key, v.what, v.rep)
+		}
+	})
+	res.Evaluations += nMut
+	res.Extra["unusual_body_requests"] = nMut
 	return res.Finish()
 }
 
